@@ -233,7 +233,11 @@ def oracle(case, R):
     if hstep is not None and case.get("tsolve_first"):
         tsu.tsolve(np.real(F_in[:, :1]) @ np.ones((1, 4)))
         R.label("tsolve_first")
-    su = tsu.fsolve(F_in, freq, incrb=incrb, rf_disp_only=rfdo)
+    F_call, lab_ = util.repack(F_in, case.get("fpack", "same"))
+    fq_call = freq.tolist() if case.get("freq_list") else freq
+    R.label("force:" + lab_)
+    su = tsu.fsolve(F_call, fq_call, incrb=incrb, rf_disp_only=rfdo)
+    R.check(np.array_equal(np.asarray(F_call), F_in), "fsolve_modifies_force", lab_)
     R.label("su_unc" if tsu.unc else "su_coupled")
     kap_su = kapPhi
     if not tsu.unc and S["el"]:
@@ -254,7 +258,7 @@ def oracle(case, R):
     fd_ok = not (S["rb"] and 0.0 in freq) and not case.get("pre_eig")
     if fd_ok:
         d2, v2, a2, cnd2 = reference(S, freq, incrb, rfdo, direct_rb=True)
-        fd = ode.FreqDirect(M_in, B_in, K_in, rb=rb_in, rf=rf_in).fsolve(F_in, freq, incrb=incrb, rf_disp_only=rfdo)
+        fd = ode.FreqDirect(M_in, B_in, K_in, rb=rb_in, rf=rf_in).fsolve(F_call, fq_call, incrb=incrb, rf_disp_only=rfdo)
         compare(R, "FreqDirect", fd, (tr(d2), tr(v2), tr(a2)), groups, cnd2 * (daf if form == "physical" else 1.0), kapPhi, tag, nat=nat)
         if not rbd:
             # both solvers on identical input
@@ -438,6 +442,8 @@ def freq_cases(draw, form, psd=False):
             "cforce": draw(st.booleans()), "incrb": draw(st.sampled_from(LETTERS)),
             "rf_disp_only": draw(st.booleans()), "rb_given": draw(st.booleans()), "bvec": draw(st.booleans()),
             "kvec": draw(st.booleans()), "pre_eig": pre_eig, "cpl": draw(st.sampled_from([0.05, 0.3, 0.8]))}
+    case["fpack"] = draw(st.sampled_from(["same", "same", "int", "list", "fortran", "strided", "readonly"]))
+    case["freq_list"] = draw(st.booleans())
     if not hyst and not case["cmass"] and not psd and draw(st.booleans()):
         case["h"] = draw(st.sampled_from([0.01, 0.001, 0.1]))
         case["tsolve_first"] = draw(st.booleans())
